@@ -334,6 +334,19 @@ def linear_extension(decls, tags, pick):
     return order
 
 
+def restore_groups(order, tags):
+    """`order`: a list of declaration indices.  Puts the typedefs of every tag, and its struct
+    symbols, back into their original relative order (at the places the group occupies)."""
+    order = list(order)
+    for info in tags.values():
+        for grp in (info.get('typedefs', []), info.get('structs', [])):
+            if len(grp) > 1:
+                slots = sorted(order.index(i) for i in grp)
+                for s_, i in zip(slots, sorted(grp)):
+                    order[s_] = i
+    return order
+
+
 def reorder(inp, order):
     """apply a declaration order (list of old indices) to an input, re-indexing the tag table"""
     new_of = {old: new for new, old in enumerate(order)}
@@ -1539,6 +1552,122 @@ def corr_includes(ctx, cnt, rng, scratch):
     return done
 
 
+def corr_fixpoint(ctx, cnt, rng, inputs, girroot):
+    """the `while True:` loop of IntrospectablePass.validate vs the model's loopI, on namespaces in
+    the generated declaration order AND in shuffled orders (aliases before their targets: the
+    orders in which more than one round is needed).  The flags the loop starts from and the
+    fixed part of every `_type_is_introspectable` answer are read off the real objects."""
+    m = scanpipe.mods()
+    reqs = []
+    reals = []
+    for key, inp in inputs:
+        girdir = write_deps(inp, os.path.join(girroot, key))
+        for how in ('as-declared', 'shuffled', 'reversed'):
+            if how == 'as-declared':
+                v = inp
+            elif how == 'shuffled':
+                v = variant(inp, 'decls-any', rng)
+            else:
+                # the most adverse order: everything reversed, so every alias stands before its target
+                # (the typedefs of one tag and its struct symbols keep their relative order)
+                order = restore_groups(list(reversed(range(len(inp['decls'])))), inp['tags'])
+                v = copy.deepcopy(inp)
+                v['decls'] = [inp['decls'][i] for i in order]
+            cfg = materialise(v, girdir)
+
+            def extract():
+                r = scanpipe.scan(dict(cfg, stop_after='main'))
+                tr, ns = r['transformer'], r['namespace']
+                p = m.introspectablepass.IntrospectablePass(tr, r['blocks'])
+                ns.walk(p._introspectable_alias_analysis)
+                ns.walk(p._propagate_callable_skips)
+                ns.walk(p._analyze_node)
+                objs = []
+
+                def visit(obj, stack):
+                    objs.append((obj, list(stack)))
+                    return True
+                ns.walk(visit)
+                index = {id(o): i for i, (o, _s) in enumerate(objs)}
+                saved = [(bool(o.introspectable), bool(o.skip)) for o, _s in objs]
+                tf0 = [a for a, _b in saved]
+
+                def leaves(t):
+                    if isinstance(t, (m.ast.Array, m.ast.List)):
+                        return leaves(t.element_type)
+                    if isinstance(t, m.ast.Map):
+                        return leaves(t.key_type) + leaves(t.value_type)
+                    return [t]
+                for o, _s in objs:        # the fixed part: every node of this namespace answers True
+                    o.introspectable = True
+                    o.skip = False
+                nodes = []
+                try:
+                    for (o, stack), (_intro, skip) in zip(objs, saved):
+                        if isinstance(o, m.ast.Alias):
+                            kind, types, inline = 'alias', [o.target], False
+                        elif isinstance(o, m.ast.Callable):
+                            kind, types = 'callable', [p_.type for p_ in o.parameters] + [o.retval.type]
+                            inline = isinstance(o, m.ast.Function) and bool(o.is_inline)
+                        else:
+                            kind, types, inline = 'other', [], False
+                        refs = []
+                        for t in types:
+                            for leaf in leaves(t):
+                                tgt = tr.lookup_typenode(leaf) if getattr(leaf, 'target_giname', None) else None
+                                if tgt is not None and id(tgt) in index:
+                                    refs.append(index[id(tgt)])
+                        nodes.append({'kind': kind, 'ok': all(p._type_is_introspectable(t) for t in types) and not inline,
+                                      'refs': refs,
+                                      'skip': skip or any(saved[index[id(a)]][1] for a in stack if id(a) in index),
+                                      'name': getattr(o, 'name', None)})
+                finally:
+                    for (o, _s), (intro, skip) in zip(objs, saved):
+                        o.introspectable = intro
+                        o.skip = skip
+                return nodes, tf0
+            ok, rr = guarded(ctx, 'IntrospectablePass (state before the loop)', extract)
+            if not ok:
+                return len(reals)
+            nodes, tf0 = rr
+            try:
+                full = scanpipe.scan(cfg)
+            except BaseException:
+                cnt.hit('fixpoint:scan-raised')
+                continue
+            final = []
+
+            def visit2(obj, stack):
+                final.append((getattr(obj, 'name', None), bool(obj.introspectable)))
+                return True
+            full['namespace'].walk(visit2)
+            if [n_ for n_, _f in final] != [n['name'] for n in nodes]:
+                cnt.hit('fixpoint:walk-differs(skipped)')
+                continue
+            reqs.append({'op': 'c16.fixpoint', 'nodes': [{k: n[k] for k in ('kind', 'ok', 'refs', 'skip')} for n in nodes],
+                         'tf': tf0, 'ord': list(range(len(nodes)))})
+            reals.append((key, how, nodes, tf0, [f for _n, f in final]))
+    res = ctx.driver.batch(reqs)
+    bad = 0
+    for (key, how, nodes, tf0, final), mod in zip(reals, res):
+        judged = [i for i, n in enumerate(nodes) if n['kind'] != 'other']
+        cnt.case(['fixpoint', key, how, tf0], nontrivial=any(n['refs'] for n in nodes))
+        cnt.hit('fixpoint:%s' % how)
+        if mod['tf'] != tf0:
+            cnt.hit('fixpoint:loop-cleared-flags')
+        if mod['one_round'] != mod['tf']:
+            cnt.hit('fixpoint:more-than-one-round-needed(%s)' % how)
+        if not mod['stable']:
+            ctx.broken.append('c16.fixpoint: the model loop ended in a state that is not stable (%s, %s)' % (key, how))
+        if [mod['tf'][i] for i in judged] != [final[i] for i in judged]:
+            bad += 1
+            if bad <= 3:
+                diff = [(nodes[i]['name'], nodes[i]['kind'], final[i], mod['tf'][i]) for i in judged if final[i] != mod['tf'][i]]
+                ctx.broken.append('correspondence c16.fixpoint differs (%s, declarations %s): (name, kind, real introspectable, model) %r'
+                                  % (key, how, diff[:6]))
+    return len(reals)
+
+
 # ---------------------------------------------------------------------------------------------
 # the metamorphic validation on the real pipeline
 # ---------------------------------------------------------------------------------------------
@@ -1680,7 +1809,7 @@ def metamorphic(ctx, cnt, pool, inputs, seeds, nperm, rng, samples):
                                        PENDING_FINDINGS['include-set-order/ambiguous-ctype'], replay)
                     continue
                 if invalid_c and not out.startswith('RAISED') and not base_out.startswith('RAISED') \
-                        and signature(normalise_ambiguous(out, amb)) == signature(normalise_ambiguous(base_out, amb)):
+                        and signature(out) == signature(base_out):
                     # a declaration order no C front end delivers: the content of elements is outside
                     # the quantifier (counted, shown as a note); the sibling order was still checked
                     cnt.hit('outside:use-before-declaration,content-differs')
@@ -1755,7 +1884,7 @@ def run(ctx):
 
     # ---- inputs: corpus first, then the seeded generator
     corpus = [(k, normalise_input(c)) for k, c in load_corpus()]
-    n_in = ctx.n(60, 1000)
+    n_in = ctx.n(60, 800)
     inputs = list(corpus)
     for i in range(n_in):
         inputs.append(('g%d' % i, gen_input(rng)))
@@ -1767,6 +1896,15 @@ def run(ctx):
         raise
     except Exception as e:
         ctx.broken.append('correspondence c16.write_namespace aborted: %s: %s' % (type(e).__name__, str(e)[:300]))
+        ctx.log(traceback.format_exc()[-1500:])
+    try:
+        fx = [(k, inp) for k, inp in inputs if any(f.startswith(('alias-chain', 'corpus:alias-chain', 'deps:rich', 'corpus:rich'))
+                                                    for f in inp['features'])][:ctx.n(14, 150)]
+        total += corr_fixpoint(ctx, cnt, rng, fx, os.path.join(ctx.scratch, 'fxgir'))
+    except HarnessError:
+        raise
+    except Exception as e:
+        ctx.broken.append('correspondence c16.fixpoint aborted: %s: %s' % (type(e).__name__, str(e)[:300]))
         ctx.log(traceback.format_exc()[-1500:])
     ctx.log('correspondence done (%d comparisons), starting metamorphic runs' % total)
 
